@@ -40,6 +40,7 @@ def jobs(tier):
         js.append(('inline-c', ci, b['inline_seq']))
     js += leafspell.jobs()
     js += [j for j in inlinespell.jobs() if j[1] != 'charref']
+    js.append(('uniblank',))
     return js
 
 
@@ -217,6 +218,29 @@ def run_job(job):
                     r.outcome('trees:exact' if exact else 'trees')
             if i < 2:
                 r.sample(dict(markdown=trees.to_markdown(blocks, dict(trees.DEFAULTS, table_pipes='padded'))[0]), 1)
+    elif kind == 'uniblank':
+        # a line holding nothing but white space that is not blank or tab: whatever the parser makes of it, the rendering must
+        # parse to the same document
+        # (not after indented code: white-space-only lines inside code blocks are the recorded finding of spec examples 112/129;
+        # not the characters str.splitlines() treats as line ends: excluded by the property)
+        firsts = ['a', '> q', '<div>', '[l]: /u', '- i', '# h', '```\nc\n```', '| a |\n|---|']
+        seconds = ['b', '[l]', '- j', '> r', '# k']
+        for ws in ('\u00a0', '\u2003', '\u3000', ' \u00a0 ', '\u00a0\u00a0', '\u200b', '\ufeff', '\u1680', '\u202f'):
+            for a_ in firsts:
+                for b_ in seconds:
+                    md = a_ + '\n' + ws + '\n' + b_ + '\n'
+                    r.states += 1
+                    for nw in (False, True):
+                        r.transitions += 1
+                        bad = roundtrip(md, nw, False)
+                        if bad is None:
+                            r.skip('input cannot be rendered (C01)')
+                            continue
+                        r.validated += 1
+                        for clause, want, got in bad:
+                            r.fail(dict(markdown=md, normalize_whitespace=nw, clause=clause, exact=False), clause + ':unicode-blank-line', expected=want, observed=got)
+                        r.outcome('uniblank')
+        r.sample(dict(space='lines of non-ASCII white space between blocks'), 1)
     elif kind == 'inlinespell':
         for case in inlinespell.cases_of_job(job):
             r.states += 1
